@@ -39,6 +39,9 @@ pub enum Op {
     AddFill { extra: i8, wr: u16 },
     /// Submit a chain whose buffer count sits on a boundary: see `boundary_count`.
     AddBoundary(u8),
+    /// Submit `nb` (2..) one-byte buffers while the heap cannot supply the indirect table (the
+    /// allocation of exactly 16*nb bytes, 16-aligned, fails once).
+    AddNoHeap(u8),
     Fetch,
     Complete { pick: u16, written: u16 },
     CompleteAll { rot: u16 },
@@ -272,6 +275,7 @@ pub struct Flags {
     pub c05_checks: u32,
     pub c05_event_windows: u32,
     pub followed_capacity_deviation: bool,
+    pub heap_failures: u32,
 }
 
 pub struct Eng {
@@ -289,6 +293,7 @@ pub struct Eng {
     avail_idx: u16,
     last_sn_idx: u16,
     follow_capacity: bool,
+    no_heap: bool,
     desc_owner: Vec<Option<u16>>,
     adds: u64,
     pops: u64,
@@ -371,6 +376,7 @@ impl Eng {
             pops: 0,
             last_sn_idx: 0,
             follow_capacity,
+            no_heap: false,
             dev_flags: 0,
             shadow,
             flags: Flags {
@@ -387,6 +393,7 @@ impl Eng {
                 pipelined_rounds: 0,
                 c05_event_windows: 0,
                 followed_capacity_deviation: false,
+                heap_failures: 0,
                 max_out: 0,
                 c05_checks: 0,
             },
@@ -509,6 +516,10 @@ impl Eng {
         let res = match guard(|| unsafe { q.add(&in_sl, &mut out_sl) }) {
             Caught::Ok(r) => r,
             Caught::Panic(p) => {
+                if self.no_heap {
+                    // heap exhaustion was injected: a panic is a legitimate way to report it
+                    return Err(v("HEAP", p.render()));
+                }
                 return Err(v("C03", format!("add({} in, {} out) with {} descriptors held: {}", ins.len(), outs.len(), self.held, p.render())))
             }
             Caught::Escape(e) => return Err(v("C03", format!("{:?}", e))),
@@ -719,6 +730,46 @@ impl Eng {
         self.flags.max_out = self.flags.max_out.max(self.subs.len());
         self.check_answers()?;
         Ok(true)
+    }
+
+    /// A multi-buffer submission while the allocation of the indirect table fails. Allowed
+    /// outcomes: a panic or an error that leaves queue memory, descriptor accounting and the
+    /// platform ledger untouched -- or a submission that is correct by every other oracle.
+    pub fn add_no_heap(&mut self, nb: usize) -> R {
+        if !self.cfg.indirect || nb < 2 || nb > self.n {
+            return Ok(());
+        }
+        let before = self.mem_snapshot();
+        let log0 = with(|w| w.hal.log.len());
+        let adds0 = self.adds;
+        crate::allocguard::fail_next(16 * nb, 16);
+        self.no_heap = true;
+        let r = self.add(&vec![1u32; nb - 1], &[1]);
+        self.no_heap = false;
+        let unused = crate::allocguard::fail_clear();
+        match r {
+            Ok(_) => {
+                if !unused {
+                    self.flags.heap_failures += 1;
+                }
+                Ok(())
+            }
+            Err(vi) if vi.prop == "HEAP" => {
+                let _ = adds0;
+                // the allocation failure surfaced as a panic inside add(): nothing may have changed
+                self.flags.heap_failures += 1;
+                if self.mem_snapshot() != before {
+                    return Err(v("C02", "add() panicked on heap exhaustion after changing device-visible queue memory".to_string()));
+                }
+                let ev: Vec<HalEv> = with(|w| w.hal.log[log0..].to_vec());
+                if !ev.is_empty() {
+                    return Err(v("C04", format!("add() panicked on heap exhaustion after platform calls {:?}", ev)));
+                }
+                let _ = world::take_faults();
+                Ok(())
+            }
+            Err(vi) => Err(vi),
+        }
     }
 
     /// Device fetches everything available.
@@ -1057,6 +1108,7 @@ impl Eng {
                 let outs = vec![1u32; nb / 3];
                 self.add(&ins, &outs)?;
             }
+            Op::AddNoHeap(k) => self.add_no_heap(2 + (*k as usize % 6).min(self.n.saturating_sub(1)))?,
             Op::Fetch => self.fetch()?,
             Op::Complete { pick, written } => {
                 self.fetch()?;
@@ -1340,6 +1392,9 @@ pub fn run_case(c: &QCase, prop: &'static str, st: &mut Stats) -> Result<(), Str
             if f.indirect_chain {
                 st.class("indirect_chain");
             }
+            if f.heap_failures > 0 {
+                st.class_n("submissions_under_heap_exhaustion", f.heap_failures as u64);
+            }
             if f.wrapped {
                 st.class("index_wrap_crossed");
                 if f.pipelined_rounds > 0 {
@@ -1450,6 +1505,7 @@ pub fn op_strategy() -> impl Strategy<Value = Op> {
         1 => Just(Op::Peek),
         1 => Just(Op::AvailDesc),
         1 => (0u8..10).prop_map(Op::AddBoundary),
+        1 => any::<u8>().prop_map(Op::AddNoHeap),
         1 => Just(Op::ShouldNotify),
         1 => any::<bool>().prop_map(Op::SetDevNotify),
         1 => (0u16..=1).prop_map(Op::DevFlags),
